@@ -134,6 +134,7 @@ def encoder_semantics(ctx, rule="R3"):
             elif res == escape_of(exact) or sym_escape(res):
                 encoded.add(exact)
             else:
+                encoded.add(exact)
                 bad.append("character %r -> %s" % (exact, shown))
         elif inside:
             chars = frozenset.intersection(*inside) - outside
@@ -142,6 +143,7 @@ def encoder_semantics(ctx, rule="R3"):
             elif same(res):
                 passed |= chars
             else:
+                encoded |= chars          # transformed, though not into the escape
                 bad.append("character in %s -> %s" % (sorted(chars)[:4], shown))
         else:
             n_default += 1
